@@ -40,7 +40,7 @@ func (g *fgen) freshResults(sig *types.Signature, name string, st *state) []val 
 	var vs []val
 	for i := 0; i < sig.Results().Len(); i++ {
 		t := sig.Results().At(i).Type()
-		nm := g.fresh("r_"+name, g.sortOf(t))
+		nm := g.fresh("r_"+mangle(name), g.sortOf(t))
 		g.fact("true", g.wf(nm, t, st.alloc, 0))
 		vs = append(vs, val{nm, t, g.sortOf(t)})
 	}
